@@ -61,7 +61,10 @@ type fakeNet struct {
 
 	mu              sync.Mutex
 	live            int
-	inClose         int
+	inClose         int  // CloseConn entered, socket not closed yet
+	afterDec        int  // hc.close.afterdec hits
+	closes          int  // client-side Close calls (first per conn)
+	closeFirst      bool // a socket was closed before its CloseConn reached hc.close.afterdec: this build closes first
 	maxLive         int
 	over            []overEvent
 	overExplained   int
@@ -114,6 +117,13 @@ func (n *fakeNet) closeEnter() {
 	n.mu.Unlock()
 }
 
+// closeAfterDec is called from the hc.close.afterdec hook (slot already given back).
+func (n *fakeNet) closeAfterDec() {
+	n.mu.Lock()
+	n.afterDec++
+	n.mu.Unlock()
+}
+
 func (n *fakeNet) dial(addr string) (net.Conn, error) {
 	enter := n.now()
 	n.mu.Lock()
@@ -125,8 +135,10 @@ func (n *fakeNet) dial(addr string) (net.Conn, error) {
 		n.maxLive = l
 	}
 	if l > n.max {
-		// Surplus sockets all inside CloseConn (slot possibly given away, socket
-		// not closed yet)? Narrow predicate for the CloseConn ordering defect.
+		// Narrow predicate for the CloseConn ordering defect: the surplus sockets
+		// are all inside CloseConn (and, judged at the end of the history when
+		// every CloseConn has finished, this build closes a socket only after
+		// its CloseConn passed hc.close.afterdec, i.e. releases the slot first).
 		ex := l-n.inClose <= n.max
 		if ex {
 			n.overExplained++
@@ -197,6 +209,10 @@ func (c *fconn) Close() error {
 		c.n.mu.Lock()
 		c.n.live--
 		c.n.inClose--
+		c.n.closes++
+		if c.n.closes > c.n.afterDec {
+			c.n.closeFirst = true
+		}
 		delete(c.n.open, c.id)
 		c.n.mu.Unlock()
 	}
